@@ -216,10 +216,19 @@ def sqlArgs : Bool → Nat → List String → List String
     if Generated.Sql.sqliteNoArg.contains t then sqlArgs fileSeen 0 rest
     else if Generated.Sql.sqliteOneArg.contains t then
       (if t == "-cmd" then (match rest with | a :: _ => [a] | [] => []) else []) ++ sqlArgs fileSeen 1 rest
-    else if t == "-lookaside" then sqlArgs fileSeen 2 rest
+    else if Generated.Sql.sqliteTwoArg.contains t then sqlArgs fileSeen 2 rest
     else if Py.startsWith t "-" then sqlArgs fileSeen 0 rest
     else if !fileSeen then sqlArgs true 0 rest
     else t :: sqlArgs fileSeen 0 rest
+
+/-- `_option_words`: the words sqlite3 reads as options; the values of one-argument options (and the two of
+    `-lookaside`) are stepped over -/
+def optionWords : Nat → List String → List String
+  | _, [] => []
+  | skip + 1, _ :: rest => optionWords skip rest
+  | 0, t :: rest =>
+    (if Py.startsWith t "-" then [t] else []) ++
+      optionWords (if Generated.Sql.sqliteOneArg.contains t then 1 else if Generated.Sql.sqliteTwoArg.contains t then 2 else 0) rest
 
 inductive SqliteVerdict where
   | helpVersion | readonlyMode | initScript | interactive | readOnlyQuery | writeQuery | unknownQuery
@@ -232,8 +241,8 @@ def SqliteVerdict.allowed : SqliteVerdict → Bool
 /-- `classify` of cli/sqlite3.py -/
 def sqliteClassify (tokens : List String) : SqliteVerdict :=
   if tokens.any (fun t => Generated.Sql.sqliteHelp.contains t) then .helpVersion
-  else if tokens.contains "-readonly" || tokens.contains "-safe" then .readonlyMode
-  else if tokens.contains "-init" then .initScript
+  else if (optionWords 0 (tokens.drop 1)).contains "-readonly" || (optionWords 0 (tokens.drop 1)).contains "-safe" then .readonlyMode
+  else if (optionWords 0 (tokens.drop 1)).contains "-init" then .initScript
   else
     let parts := sqlArgs false 0 (tokens.drop 1)
     if parts.isEmpty then .interactive
